@@ -519,6 +519,8 @@ def hash_stable(t):
         return True
     if isinstance(t, tuple) and t and t[0] == "tup":
         return all(hash_stable(x) for x in t[1])
+    if isinstance(t, tuple) and len(t) == 2 and t[0] == "seq":
+        return hash_stable(t[1])          # an element of a set is hashable: a homogeneous tuple
     return False
 
 
